@@ -209,7 +209,11 @@ class _CanonNames(ast.NodeTransformer):
 def canonical_names(fn, table, module_name):
     """numpy / typhon.constants / functions of this module, reached through whatever alias the module binds,
     are spelled the way the translators know them (`np.<f>`, `constants.<c>`, `<function>`)."""
-    return _CanonNames(table, module_name, function_locals(fn)).visit(fn)
+    loc = function_locals(fn)
+    for head in CANON_HEADS.values():
+        if head in loc:
+            raise Refusal(f"the function binds a local named {head}: cannot tell what {head}.<x> denotes")
+    return _CanonNames(table, module_name, loc).visit(fn)
 
 
 # ------------------------------------------------------------------------------------------------
